@@ -106,8 +106,16 @@ def run_reader_check(prop, tier):
             sc = evs[0] if evs else {}
             out.violation("%s|%s" % (v["rule"], sc.get("kind")), "%s (set %s: chunks=%s budget=%s script=%s)" % (v["rule"], tag, sc.get("chunks"), sc.get("budget"), sc.get("script")),
                           {"kind": "reader_l1", "frag": frag, "scenario": {k: sc[k] for k in sc if k != "ev"}, "verdict": {k: v[k] for k in ("rule", "scenario", "line")}, "events": evs[:100]})
+    l2_runs = 0
+    if prop in ("C07", "C08"):
+        # the same property at the process level (C08: the CLI's --http-retry-count wiring against a server that cuts transfers): `bita clone` over HTTP with seeds inducing subsets; Range log of the server judged by CloneL2Trace.tla
+        import clone_checks
+        l2_runs, l2_tv, l2_counts, l2_samples = clone_checks.run_l2(prop, tier, out, workdir)
+        counts.update(l2_counts)
+        samples += l2_samples
+        total += l2_runs
     shutil.rmtree(workdir, ignore_errors=True)
-    out.coverage = {"states": states, "transitions": trans, "traces_validated_against_impl": total,
+    out.coverage = {"states": states, "transitions": trans, "traces_validated_against_impl": total, "l2_process_runs": l2_runs,
                     "trace_events_validated": tv["events"], "behaviours_accepted": tv["scenarios_ok"], "verdicts_all_properties": counts,
                     "model_checking_runs": mc_runs, "exhaustive": True,
                     "rule": "TLC enumerates every behaviour of the bounded Reader model (chunk list x retry budget x server script: drop / full / cut after every byte offset / clean short body); each is replayed against the real reader with a scripted TCP server; server log drives Reader.tla, consumer log is compared with what the model delivered",
